@@ -9,6 +9,8 @@ MODULE = "Poupool.Properties.C04"
 
 
 def extra(chk, info, res):
+    from checks import decisions_common as _dc
+    _dc.tie(chk, ['tank'])
     tc.decisions_correspondence(chk)
     tc.sensor_check(chk)
     tc.latency_monitor(chk)
